@@ -23,6 +23,14 @@
 // `races:global:<pkg>.<var>` (ONE per variable, whatever pair of functions and whatever memory behind the variable the
 // run observed), and must be predicted by the model of that table (`races.gpredict`); the verdict per variable is the
 // model's (`races.global`).
+//
+// The caller's memory behind API arguments: the probes of scenario `arg-reuse` (child.go, functions named
+// arg_<Type>_<Method>__<param>) call the public API and write to the argument right after the call returned.  A report
+// one of whose stacks reaches such a function BEFORE any library frame (the access is the harness's own write, not
+// something the library does on the probe's goroutine) is `races:arg:<Type>.<Method>:<param>` — never folded into a
+// field, never dropped as harness-internal: the library kept the caller's argument and read it later on one of its own
+// goroutines.  It must be predicted by the third table (lean/Mcp/Gen/ApiArgs.lean + ApiArgs.sites.json,
+// extract/races_apiargs.go; `races.apredict`), whose per-parameter verdicts are the model's (`races.arg`).
 package main
 
 import (
@@ -49,7 +57,7 @@ func main() {
 		return
 	}
 	hk.Main(&hk.Component{Name: "races",
-		Rule: "scenarios = {streamable server with clients coming and going, GET streams resuming, one streamable client used from many goroutines then terminated/closed in use, first use from several goroutines, legacy SSE server+clients, stdio server on pipes, stdio client with a real child process, streamable and SSE clients with a retry policy whose calls fail transiently and back off together (one client from several goroutines, several clients), a server's registries listed in memory while the oldest tool of a sliding window is unregistered} x GOMAXPROCS x seed, each in a -race sub-process; a case is a distinct race report (field or package-level variable, function pair), a table field or a table variable; non-trivial = the field / variable is undisciplined or holds something mutable / the report names a tracked field or variable",
+		Rule: "scenarios = {streamable server with clients coming and going, GET streams resuming, one streamable client used from many goroutines then terminated/closed in use, first use from several goroutines, legacy SSE server+clients, stdio server on pipes, stdio client with a real child process, streamable and SSE clients with a retry policy whose calls fail transiently and back off together (one client from several goroutines, several clients), a server's registries listed in memory while the oldest tool of a sliding window is unregistered, callers of the send / request / call / registration APIs that reuse the map, slice or object they passed right after the call returned} x GOMAXPROCS x seed, each in a -race sub-process; a case is a distinct race report (field, package-level variable or API argument, function pair), a table field, a table variable or a table parameter; non-trivial = the field / variable is undisciplined or holds something mutable / the report names a tracked field or variable",
 		Run:  run})
 }
 
@@ -130,7 +138,25 @@ type table struct {
 	gByLine  map[string][]gsite
 	gUndisc  map[string]bool
 	globalOf map[string]*tableGlobal
+	// API arguments
+	Args  []tableArg
+	argOf map[string]*tableArg
 }
+
+type tableArg struct {
+	API      string            `json:"api"`
+	Param    string            `json:"param"`
+	Type     string            `json:"type"`
+	Stored   bool              `json:"stored"`
+	Sent     bool              `json:"sent"`
+	Returned bool              `json:"returned"`
+	Unknown  bool              `json:"unknown"`
+	Copied   bool              `json:"copied"`
+	Verdict  string            `json:"verdict"`
+	Why      map[string]string `json:"why"`
+}
+
+func (a *tableArg) compliant() bool { return !a.Stored && !a.Sent && !a.Returned && !a.Unknown }
 
 type gsite struct {
 	Fn     string `json:"fn"`
@@ -160,11 +186,13 @@ func loadTable(c *hk.Ctx, root, repo string) (*table, error) {
 	os.MkdirAll(gen, 0o755)
 	path := filepath.Join(root, "lean", "Mcp", "Gen", "FieldLocks.sites.json")
 	gpath := filepath.Join(root, "lean", "Mcp", "Gen", "Globals.sites.json")
+	apath := filepath.Join(root, "lean", "Mcp", "Gen", "ApiArgs.sites.json")
 	if exe := filepath.Join(root, "extract", "bin", "extract"); fileExists(exe) {
 		cmd := exec.Command(exe, "-repo", repo, "-out", gen)
-		if out, err := cmd.CombinedOutput(); err == nil && fileExists(filepath.Join(gen, "FieldLocks.sites.json")) && fileExists(filepath.Join(gen, "Globals.sites.json")) {
+		if out, err := cmd.CombinedOutput(); err == nil && fileExists(filepath.Join(gen, "FieldLocks.sites.json")) && fileExists(filepath.Join(gen, "Globals.sites.json")) && fileExists(filepath.Join(gen, "ApiArgs.sites.json")) {
 			path = filepath.Join(gen, "FieldLocks.sites.json")
 			gpath = filepath.Join(gen, "Globals.sites.json")
+			apath = filepath.Join(gen, "ApiArgs.sites.json")
 		} else {
 			c.SetExtra("extract_rerun", fmt.Sprintf("failed (%v): %s", err, tail(string(out), 300)))
 		}
@@ -209,6 +237,20 @@ func loadTable(c *hk.Ctx, root, repo string) (*table, error) {
 			k := s.File + ":" + strconv.Itoa(s.Line)
 			t.gByLine[k] = append(t.gByLine[k], s)
 		}
+	}
+	ab, err := os.ReadFile(apath)
+	if err != nil {
+		return nil, err
+	}
+	var at struct {
+		Args []tableArg `json:"args"`
+	}
+	if err := json.Unmarshal(ab, &at); err != nil {
+		return nil, err
+	}
+	t.Args, t.argOf = at.Args, map[string]*tableArg{}
+	for i := range t.Args {
+		t.argOf[t.Args[i].API+":"+t.Args[i].Param] = &t.Args[i]
 	}
 	return t, nil
 }
@@ -394,6 +436,7 @@ func repoFrame(a access, repo string) (rel string, line int, top bool, ok bool) 
 type finding struct {
 	Type, Field, F1, F2 string
 	Global              string // "<pkg>.<var>": the report is on (the object behind) a package-level variable
+	Arg                 string // "<Type>.<Method>:<param>": the report is on the caller's memory behind an API argument
 	Pointee             bool
 	Mapped              bool
 	External            bool // the racing memory belongs to another package and is not reached through a tracked field
@@ -405,6 +448,9 @@ type finding struct {
 }
 
 func (f *finding) fingerprint() string {
+	if f.Arg != "" {
+		return "races:arg:" + f.Arg
+	}
 	if f.Global != "" {
 		return "races:global:" + f.Global
 	}
@@ -425,7 +471,49 @@ func (f *finding) fingerprint() string {
 // (3) those anywhere in the function of the first library frame (the function works on a local that is, or will be,
 // reachable through the field — e.g. a map filled before it is stored without synchronisation).  The most direct
 // combination with a common field wins; anything but (1)×(1) with a write site is a race on memory BEHIND the field.
+var argProbeRe = regexp.MustCompile(`^main\.arg_([A-Za-z0-9_]+?)__([A-Za-z0-9]+)(\.|\(|$)`)
+
+// classifyArg: one of the two accesses is made by an argument probe itself — its function is on the stack before any
+// library frame — i.e. it is the caller's write to the argument after the call returned; the other access is the
+// library's.
+func classifyArg(r report, repo string) (finding, bool) {
+	for k := 0; k < 2; k++ {
+		for _, f := range r.acc[k].frames {
+			if strings.HasPrefix(f.file, repo+"/") {
+				break
+			}
+			m := argProbeRe.FindStringSubmatch(f.fn)
+			if m == nil {
+				continue
+			}
+			api := strings.ReplaceAll(m[1], "_", ".")
+			other := "?"
+			for _, g := range r.acc[1-k].frames {
+				if strings.HasPrefix(g.file, repo+"/") {
+					other = normFn(g.fn)
+					break
+				}
+			}
+			if other == "?" {
+				for _, g := range r.acc[1-k].created {
+					if strings.HasPrefix(g.file, repo+"/") {
+						other = normFn(g.fn) + "(go)"
+						break
+					}
+				}
+			}
+			return finding{Arg: api + ":" + m[2], F1: "caller of " + api, F2: other, Mapped: true, Pointee: true}, true
+		}
+	}
+	return finding{}, false
+}
+
 func classify(r report, t *table, repo, harnessDir string) finding {
+	if a, ok := classifyArg(r, repo); ok {
+		f := classifyField(r, t, repo, harnessDir)
+		a.Where, a.Text = f.Where, f.Text
+		return a
+	}
 	f := classifyField(r, t, repo, harnessDir)
 	// a field explanation stands (a line may touch a field and a package-level variable) unless the variable is one the
 	// table calls undisciplined, or both stacks hit the variable directly while the field explanation is an indirect one
@@ -757,6 +845,11 @@ func run(c *hk.Ctx) {
 			"global:"+g.VKind+":"+map[bool]string{true: "disciplined", false: "undisciplined"}[g.Disciplined])
 	}
 
+	for _, a := range t.Args {
+		c.Emit(map[string]any{"c": "races.arg", "api": a.API, "param": a.Param},
+			map[string]any{"known": true, "compliant": a.compliant(), "verdict": a.Verdict}, !a.compliant() || a.Copied, "arg:"+a.Verdict)
+	}
+
 	bin, err := buildRace(c, root)
 	if err != nil {
 		c.Violate(hk.Violation{Fingerprint: "races:harness-setup:race-build", What: err.Error()})
@@ -860,6 +953,13 @@ func run(c *hk.Ctx) {
 	var gorder []string
 	for _, fp := range order {
 		f := found[fp]
+		if f.Arg != "" {
+			api, param, _ := strings.Cut(f.Arg, ":")
+			c.Emit(map[string]any{"c": "races.apredict", "api": api, "param": param}, map[string]any{"predicted": true}, true, "report:api-argument")
+			groups[fp] = &group{scenarios: f.Scenarios, text: f.Text, pairs: []string{f.F1 + " + " + f.F2}, where: []string{f.Where[0] + " / " + f.Where[1]}}
+			gorder = append(gorder, fp)
+			continue
+		}
 		if f.Global != "" {
 			if f.OneSided {
 				c.Count(fp, true, nil, "report:package-level-variable")
@@ -932,6 +1032,22 @@ func run(c *hk.Ctx) {
 			continue
 		}
 		f := found[gk]
+		if f.Arg != "" {
+			verdict := "not in the table"
+			if a := t.argOf[f.Arg]; a != nil {
+				verdict = a.Verdict
+				if w := a.Why[map[string]string{"sentAsIs": "sent", "storedAsIs": "stored", "returnedAsIs": "returned", "unknown": "unknown"}[a.Verdict]]; w != "" {
+					verdict += ": " + w
+				}
+			}
+			api, param, _ := strings.Cut(f.Arg, ":")
+			c.Violate(hk.Violation{Fingerprint: gk,
+				What: fmt.Sprintf("data race on the CALLER's memory behind argument %s of %s: the caller wrote to it after the call had returned while the library was still reading it in %s (table verdict for the parameter: %s) (%s; scenarios %v)",
+					param, api, f.F2, verdict, strings.Join(f.Where[:], " / "), f.Scenarios),
+				Input: map[string]any{"scenarios": f.Scenarios, "sites": f.Where, "api": api, "param": param}, Observed: text,
+				Expected: "once a call has returned the library does not touch the caller's argument (it took a copy or finished with it)"})
+			continue
+		}
 		if f.Global != "" {
 			g := t.globalOf[f.Global]
 			c.Violate(hk.Violation{Fingerprint: gk,
